@@ -25,6 +25,11 @@ def fpol_func(kind):
         return lambda psi: 1.0 - 0.1 * psi**2
     if kind == "negquad":
         return lambda psi: -(1.0 - 0.1 * psi**2)
+    if kind == "huge":              # finite, but B^2 overflows
+        return lambda psi: 1.0e200 * (1.0 - 0.1 * np.asarray(psi) ** 2)
+    if kind in ("nan", "inf"):      # one non-finite entry in an otherwise ordinary profile array (C12 envelope)
+        bad = np.nan if kind == "nan" else np.inf
+        return lambda psi: np.where(np.arange(np.size(psi)) == (10 if kind == "nan" else np.size(psi) - 1), bad, 1.0 - 0.1 * np.asarray(psi) ** 2)
     raise ValueError(kind)
 
 
@@ -33,6 +38,8 @@ def pressure_func(kind):
         return None
     if kind == "quad":
         return lambda psi: 1000.0 * (0.2 + psi**2)
+    if kind == "nan":
+        return lambda psi: np.where(np.arange(np.size(psi)) == 10, np.nan, 1000.0 * (0.2 + np.asarray(psi) ** 2))
     raise ValueError(kind)
 
 
